@@ -514,7 +514,28 @@ func (h *invarHarness) Gen(r *Rand, tier string, clean bool) any {
 	st := genSelect(r, u, []string{"?g0"}, o)
 	c.Q = st.Q
 	c.Q.From = []string{"?g0"}
+	if r.Chance(0.12) {
+		// time bounds taken from bindings of an earlier clause: every row has its own window
+		for _, pi := range []int{2, 3, 4, 9, 10} {
+			if r.Chance(0.7) {
+				t := u[r.Intn(len(u))]
+				c.U = dedupSpecs(append(c.U, TSpec{t[0], pi, t[2]}))
+			}
+		}
+		second := QClause{S: Tm{K: "b", B: "?s2"}, P: Tm{K: "pb", ID: "p"}, O: Tm{K: "b", B: "?o2"}}
+		switch r.Intn(3) {
+		case 0:
+			second.P.LoB = "?t"
+		case 1:
+			second.P.HiB = "?t"
+		default:
+			second.P.LoB, second.P.HiB = "?t", "?t"
+		}
+		c.Q = &Query{From: []string{"?g0"}, Where: []QClause{{S: Tm{K: "b", B: "?s"}, P: Tm{K: "pa", ID: "p", B: "?t"}, O: Tm{K: "b", B: "?o"}}, second},
+			Proj: []Proj{{B: "?s"}, {B: "?t"}, {B: "?s2"}, {B: "?o2"}}}
+	}
 	if r.Chance(0.4) {
+		c.Order = nil
 		for _, p := range c.Q.Proj { // ORDER BY all outputs: a total order on distinct rows
 			c.Order = append(c.Order, Order{B: outName(p), Desc: r.Chance(0.3)})
 		}
@@ -724,7 +745,12 @@ func (h *invarHarness) Run(t *testing.T, ci any) *Outcome {
 				k := vr.Intn(j + 1)
 				pq.Where[j], pq.Where[k] = pq.Where[k], pq.Where[j]
 			}
-			if v := compare("clause-order", one, &pq, knobsVariant(c.Knobs, vr), false); v != nil {
+			what := "clause-order"
+			if boundBeforeProducer(q.Where) != boundBeforeProducer(pq.Where) {
+				// a clause whose time bound is a binding is written before the clause that binds it
+				what = "clause-order:bound-binding-before-producer"
+			}
+			if v := compare(what, one, &pq, knobsVariant(c.Knobs, vr), false); v != nil {
 				return v
 			}
 		}
@@ -754,6 +780,25 @@ func (h *invarHarness) Run(t *testing.T, ci any) *Outcome {
 	o.Det = hashStr(strings.Join(dets, ""))
 	o.Sample = map[string]any{"query": q.render(), "data": specStrings(c.U), "rows": len(base.keys), "variants_run": o.Execs}
 	return o
+}
+
+// boundBeforeProducer reports whether some clause takes a time bound from a
+// binding ("id"@[?lo,?hi]) that no earlier clause binds.
+func boundBeforeProducer(cs []QClause) bool {
+	seen := map[string]bool{}
+	for _, c := range cs {
+		for _, t := range []Tm{c.P, c.O} {
+			for _, b := range []string{t.LoB, t.HiB} {
+				if b != "" && !seen[b] {
+					return true
+				}
+			}
+		}
+		for _, b := range clauseBindings(c) {
+			seen[b] = true
+		}
+	}
+	return false
 }
 
 func specStrings(u []TSpec) []string {
